@@ -137,4 +137,61 @@ def stepSys (cfg : Cfg) (fixed : Bool) (s : Sys) : Op → Sys
 
 def runSys (cfg : Cfg) (fixed : Bool) (s : Sys) (ops : List Op) : Sys := ops.foldl (stepSys cfg fixed) s
 
+/-! ### the address buffers behind the batches
+
+A batch handed to a worker is not a copy: it is a WINDOW of the pass's sorted-address array (`b = sortedAddrs[i:i]`,
+`b = b[:len(b)+1]`). The worker reads the window when it starts (what it flushes) and AGAIN when it is done
+(`for _, addr := range addrs { c.flushObjs.Delete(addr) }`), possibly many scheduler passes later: a worker can sit in
+its main-storage put while the scheduler runs further passes over other objects. `BSys` keeps the arrays: a job is
+(`given` = what the window held at the hand-over, buffer, offset); `window` is what the array holds there NOW.
+`reuse = false` is the code: every pass allocates its array (`var sortedAddrs []oid.Address` inside the loop);
+`reuse = true` keeps one array between the passes (`sortedAddrs = sortedAddrs[:0]`, idealised: never reallocated). -/
+
+structure Job where
+  given : List Addr
+  buf : Nat
+  lo : Nat
+  deriving Repr, DecidableEq
+
+structure BSys where
+  cache : List (Addr × Nat) := []
+  inflight : List Addr := []
+  bufs : List (List Addr) := []       -- the address arrays of the passes so far
+  jobs : List Job := []
+  deriving Repr, DecidableEq
+
+/-- what the job's window of its array holds now -/
+def window (bufs : List (List Addr)) (j : Job) : List Addr := ((bufs.getD j.buf []).drop j.lo).take j.given.length
+
+/-- the batches of one pass as consecutive windows of the pass's array -/
+def windows (buf : Nat) : Nat → List (List Addr) → List Job
+  | _, [] => []
+  | lo, b :: bs => { given := b, buf := buf, lo := lo } :: windows buf (lo + b.length) bs
+
+/-- appending `arr` to the kept array cut to length 0: the front is overwritten, the rest keeps its old content -/
+def overwrite (old arr : List Addr) : List Addr := arr ++ old.drop arr.length
+
+/-- forgetting the arrays -/
+def toSys (s : BSys) : Sys := { cache := s.cache, inflight := s.inflight, jobs := s.jobs.map (·.given) }
+
+def stepB (cfg : Cfg) (reuse : Bool) (s : BSys) : Op → BSys
+  | .put a sz => if s.cache.any (fun p => p.1 == a) then s else { s with cache := s.cache ++ [(a, sz)] }
+  | .pass oracle =>
+    let cands := candidates (toSys s)
+    let r := pass cfg true cands oracle
+    let arr := cands.map (·.1)
+    let bufs := if reuse then [overwrite (s.bufs.getD 0 []) arr] else s.bufs ++ [arr]
+    let id := if reuse then 0 else s.bufs.length
+    { s with inflight := removeAll (s.inflight ++ r.marked) r.unmarked, bufs := bufs, jobs := s.jobs ++ windows id 0 r.sent }
+  | .finish i ok =>
+    match s.jobs[i]? with
+    | none => s
+    | some j =>
+      -- flushed: the addresses read at the start; unmarked: the addresses read at the end
+      { s with cache := if ok then s.cache.filter (fun p => !j.given.contains p.1) else s.cache,
+               inflight := removeAll s.inflight (window s.bufs j),
+               jobs := s.jobs.eraseIdx i }
+
+def runB (cfg : Cfg) (reuse : Bool) (s : BSys) (ops : List Op) : BSys := ops.foldl (stepB cfg reuse) s
+
 end NeoFS.WCSched
